@@ -710,7 +710,9 @@ def run_schedule(jobs_mod, qserve_mod, ops, choices, props, nworkers=3, pickler=
             fname = (last.f_code.co_filename if last is not None else "") or ""
             if "/qs/" not in fname and "qs." not in (last.f_globals.get("__name__", "") if last is not None else ""):
                 raise
-            prop = "C17" if "C17" in props else props[0]
+            if "C17" not in props:
+                raise  # C16 alone says nothing about an operation that fails; it stays an unexplained exception (harness error), not a C16 violation
+            prop = "C17"
             return {"prop": prop, "kind": "server-raised", "exc": type(e).__name__, "detail": str(e)[:100], "where": last.f_code.co_name,
                     "history": sim.history, "choices": sim.choice_log, "sig": f"{prop}|server-raised|{type(e).__name__}|{last.f_code.co_name}"}
         return None
